@@ -245,7 +245,8 @@ def hash_history(chk, program):
     try:
         it = A.Interp(hook=hook, skip=is_logger, methods=methods, functions=funcs, module=A.ModuleEnv(program.mod('message').tree))
         out = {}
-        for tag, mid, vals in (('A', 'idA', (5, 6, 7)), ('B', 'idB', (5, 6, 7)), ('C', 'idA', (5, 99, 7)), ('D', 'idA', (5, 6, 8)), ('E', 'idA', (5, 6, 7))):
+        for tag, mid, vals in (('A', 'idA', (5, 6, 7)), ('B', 'idB', (5, 6, 7)), ('C', 'idA', (5, 99, 7)), ('D', 'idA', (5, 6, 8)), ('E', 'idA', (5, 6, 7)),
+                               ('F', 'idA', (0, 6, 7)), ('G', 'idA', (7, 6, 0)), ('H', 'idA', (0, 6, 0))):
             msg = A.AObj(id=A.AStr([('lit', mid)]), PGN=A.AInt(130000), fields=A.AList([fld(1, True, vals[0]), fld(2, False, vals[1]), fld(3, True, vals[2])]), hash=None,
                          description=A.AStr([('lit', 'descr')]), ttl=None)
             args = [msg]
@@ -268,7 +269,9 @@ def hash_history(chk, program):
         return False
     for name, ok, exp in (('another-definition-same-PGN-same-keys', out['B'] != out['A'], 'a different hash than A (the definition id is part of the identity)'),
                           ('non-key-field-changed', out['C'] == out['A'], 'the hash of A'), ('key-field-changed', out['D'] != out['A'], 'a different hash than A'),
-                          ('same-message-again', out['E'] == out['A'], 'the hash of A')):
+                          ('same-message-again', out['E'] == out['A'], 'the hash of A'),
+                          ('zero-in-the-first-key-vs-zero-in-the-second', out['F'] != out['G'], 'different hashes: key values (0, 7) and (7, 0) are different identities'),
+                          ('both-keys-zero', out['H'] not in (out['F'], out['G']), 'a hash of its own: a key value of 0 is a value, not an absent field')):
         chk.check(ok, 'HASH-DEPS', f"history::{name}", file=MSG, line=fn.lineno, func='add_data', expected=exp, found='ok' if ok else {k: v[:80] for k, v in out.items()},
                   detail='' if ok else 'something kept between calls (a cache keyed too coarsely) or a wrong input makes messages share / not share a hash')
     return True
@@ -522,6 +525,17 @@ def helper_affine(program, name):
     vals = outcomes(False)
     terms = {v for kind, g_, v in vals if kind == 'return'}
     if any(kind == 'raise' for kind, g_, v in vals) or len(terms) != 1:
+        # several paths for a present value: a witness is a present value that comes back as absent (or raises) -- found by evaluating the extracted
+        # terms (never repository code) at a few present values, zero among them
+        from . import rules_help as _H, teval as _T
+        rows_ = [e for e in ex.events if e[0] in ('return', 'raise')]
+        for x in (0, 0.0, 1, -1, 2.5, 273.15, 100000):
+            try:
+                r_ = _H._eval_rows(rows_, {ex.params[0]: x})
+            except (_T.EvalUnknown, KeyError, TypeError, ValueError, ZeroDivisionError, OverflowError):
+                break
+            if r_ == ('return', None) or r_[0] in ('raise', 'fall'):
+                return {'present_lost': x, 'outcome': r_, 'line': fn.lineno}, None
         return None, f"{len(vals)} value-returning paths for a present value"
     term = next(iter(terms))
     try:
@@ -551,6 +565,10 @@ def _unit_rows(chk, program, fn, rows, f):
         info, why = helper_affine(program, v[1][1])
         if info is None:
             chk.unknown('UNIT-AFFINE', inst, why, UT, 0)
+            continue
+        if 'present_lost' in info:
+            chk.violation('UNIT-AFFINE', f"{inst}::{v[1][1]}::present-stays-present", file=UT, line=info['line'], func=v[1][1], expected='a present value is converted (only None stays None)',
+                          found=f"{v[1][1]}({info['present_lost']!r}) gives {info['outcome']}", detail='a reading of exactly zero (speed at the dock, heading north, no pressure) would be reported as absent')
             continue
         if 'nonaffine' in info:
             chk.violation('UNIT-AFFINE', f"{inst}::{v[1][1]}", file=UT, line=info['line'], func=v[1][1], expected='an affine map of the input (optionally rounded)', found=info['term'],
